@@ -8,7 +8,7 @@ import argparse, json, os, shutil, subprocess, sys, time
 ap = argparse.ArgumentParser()
 ap.add_argument("id"); ap.add_argument("prop"); ap.add_argument("src"); ap.add_argument("pkg"); ap.add_argument("run")
 ap.add_argument("--suite", action="store_true"); ap.add_argument("--tier", default="quick"); ap.add_argument("--unit")
-ap.add_argument("--needs", default=""); ap.add_argument("--race", action="store_true"); ap.add_argument("--nocheck", action="store_true")
+ap.add_argument("--needs", default=""); ap.add_argument("--tags", default=""); ap.add_argument("--race", action="store_true"); ap.add_argument("--nocheck", action="store_true")
 a = ap.parse_args()
 WT = "/tmp/vfseed"
 env = dict(os.environ, GOFLAGS="-mod=mod", GOPROXY="off")
@@ -27,7 +27,7 @@ demo_dst = os.path.join(WT, a.pkg, "zz_seed_demo_test.go")
 shutil.copy(os.path.join(dst, "demo_test.go"), demo_dst)
 ran = []
 def demo():
-    cmd = ["go", "test", "-vet=off", "-count=1", "-run", a.run] + (["-race"] if a.race else []) + ["./" + a.pkg]
+    cmd = ["go", "test", "-vet=off", "-count=1", "-run", a.run] + (["-race"] if a.race else []) + (["-tags", a.tags] if a.tags else []) + ["./" + a.pkg]
     r = sh(cmd, cwd=WT); ran.append(" ".join(cmd)); return r
 r0 = demo()
 res = {"demo_clean_passes": r0.returncode == 0}
